@@ -109,10 +109,10 @@ def ctl_families(tier):
     # (cfg, behaviours wanted, simulation runs, depth); the last one is enumerated exhaustively:
     # design-level counterexamples of NoStaleJob (overlapping refreshes) among short start-up /
     # head event / reorg / delayed-reply histories, to be replayed on the real code
-    return [("Scen_Controller.cfg", 300 if q else 1500, 500 if q else 3000, 160),          # small chain, all stimuli
-            ("Scen_Controller_wide.cfg", 100 if q else 600, 160 if q else 1200, 260),      # other chain parameters
-            ("Scen_Controller_gated_sim.cfg", 30 if q else 200, 120 if q else 1000, 200),  # delayed duty replies
-            ("Scen_Controller_gated.cfg" if q else "Scen_Controller_gated_big.cfg", 1 if q else 30, 0, 0)]
+    return [("Scen_Controller.cfg", 300 if q else 2000, 500 if q else 3200, 160),          # small chain, all stimuli
+            ("Scen_Controller_wide.cfg", 100 if q else 800, 160 if q else 1200, 260),      # other chain parameters
+            ("Scen_Controller_gated_sim.cfg", 30 if q else 250, 120 if q else 800, 200),   # delayed duty replies
+            ("Scen_Controller_gated.cfg" if q else "Scen_Controller_gated_big.cfg", 1 if q else 2, 0, 0)]
 
 
 def ctl_generate(fam):
